@@ -93,13 +93,30 @@ Theorem C17_control_registry_refused_changes_nothing :
 Proof. exact creg_refused_unchanged. Qed.
 Print Assumptions C17_control_registry_refused_changes_nothing.
 
+(* Register's ATOMICITY is what C17_control_registry_never_exceeds rests on (one thread step = the whole Register).  The
+   variant that releases the registry lock between the eviction and the insert (around the evicted stream's Close()) is
+   refuted: limit 2, two callers, schedule evict_A / register_B / insert_A => 3 entries; the atomic Register stays at 2 on
+   every schedule.  The harness parks the evicted connection's Stream.Close() to tell the two apart on the real code. *)
+Theorem C17_control_registry_split_refuted :
+  exists sched, length (fst (run _ _ (creg_split_step 2) ([(1, 1); (2, 2)]%N, [PStart 3 3; PStart 4 4]) sched)) = 3.
+Proof. exact creg_split_refuted. Qed.
+Print Assumptions C17_control_registry_split_refuted.
+
+Theorem C17_control_registry_atomic_witness :
+  forall sched, length (fst (rrun (creg_apply 2) [(1, 1); (2, 2)]%N
+                                  [{| r_todo := [RReg 3 3]; r_log := [] |}; {| r_todo := [RReg 4 4]; r_log := [] |}] sched)) <= 2.
+Proof. exact creg_atomic_witness. Qed.
+Print Assumptions C17_control_registry_atomic_witness.
+
 (* ---- per-mapping concurrent-connection limit on the listening client ---- *)
 
-(* any number of local connections arriving, any schedule of their atomic actions (Load / CAS / tunnel start /
-   tunnel close): live tunnels <= slots held = activeConnCount <= limit *)
+(* any number of local connections arriving — each either carried through to a running tunnel, or closed by its peer
+   between RegisterTunnel and Start (`earlies`) —, any schedule of their atomic actions (Load / CAS / tunnel start /
+   OnClosed release / deferred release / tunnel close): live tunnels <= slots held = activeConnCount <= limit, and the
+   counter never goes below zero *)
 Theorem C17_mapping_cap_never_exceeds :
-  forall (max n : nat) (sched : list nat),
-  let s := mrun Current max {| counter := 0; live := 0 |} (repeat MStart n) sched in
+  forall (max : nat) (earlies : list bool) (sched : list nat),
+  let s := mrun Current max {| counter := 0; live := 0 |} (map MStart earlies) sched in
   (0 < max -> (counter (fst s) <= Z.of_nat max)%Z) /\
   counter (fst s) = Z.of_nat (countb m_holds (snd s)) /\
   live (fst s) = Z.of_nat (countb m_live (snd s)) /\
@@ -114,17 +131,45 @@ Print Assumptions C17_mapping_refused_changes_nothing.
 
 (* the code as found: Load, Load, Add, Add *)
 Theorem C17_mapping_cap_pinned_refuted :
-  exists sched, counter (fst (mrun Pinned 1 {| counter := 0; live := 0 |} [MStart; MStart] sched)) = 2%Z.
+  exists sched, counter (fst (mrun Pinned 1 {| counter := 0; live := 0 |} [MStart false; MStart false] sched)) = 2%Z.
 Proof. exact mapping_cap_pinned_refuted. Qed.
 Print Assumptions C17_mapping_cap_pinned_refuted.
 
 (* the code as found, strictly sequential arrivals: the slot is returned when handleConnection returns, not when the
    tunnel ends — two live tunnels under limit 1 *)
 Theorem C17_mapping_slot_lifetime_pinned_refuted :
-  exists sched, let s := mrun Pinned 1 {| counter := 0; live := 0 |} [MStart; MStart] sched in
+  exists sched, let s := mrun Pinned 1 {| counter := 0; live := 0 |} [MStart false; MStart false] sched in
                 live (fst s) = 2%Z /\ snd s = [MLive; MLive].
 Proof. exact mapping_slot_lifetime_pinned_refuted. Qed.
 Print Assumptions C17_mapping_slot_lifetime_pinned_refuted.
+
+(* the slot release WITHOUT the sync.Once (one acquire, OnClosed releases, the deferred cleanup releases again): a
+   connection closed by its peer between RegisterTunnel and Start drives the counter to -1, and afterwards two tunnels are
+   live under limit 1 — strictly sequential history *)
+Theorem C17_mapping_release_not_idempotent_refuted :
+  exists sched,
+    let s := run _ _ (mstep_gen false Current 1) ({| counter := 0; live := 0 |}, [MStart true; MStart false; MStart false]) sched in
+    live (fst s) = 2%Z /\ snd s = [MDone; MLive; MLive] /\
+    counter (fst (run _ _ (mstep_gen false Current 1) ({| counter := 0; live := 0 |}, [MStart true; MStart false; MStart false])
+                      (firstn 4 sched))) = (-1)%Z.
+Proof. exact mapping_release_not_idempotent_refuted. Qed.
+Print Assumptions C17_mapping_release_not_idempotent_refuted.
+
+(* release as events: for EVERY sequence of acquire / release / release-again events of every connection, any number of
+   connections and every schedule, the counter equals the number of connections holding a slot (never below zero) and
+   stays within the limit *)
+Theorem C17_slot_release_idempotent :
+  forall (max : nat) (scripts : list (list hev)) (sched : list nat),
+  let s := hrun true max 0%Z (map h_new scripts) sched in
+  fst s = Z.of_nat (countb h_holding (snd s)) /\ (0 <= fst s)%Z /\ (0 < max -> (fst s <= Z.of_nat max)%Z).
+Proof. exact slot_release_idempotent. Qed.
+Print Assumptions C17_slot_release_idempotent.
+
+Theorem C17_slot_release_not_idempotent_refuted :
+  exists sched, let s := hrun false 1 0%Z (map h_new [[HAcq; HRel; HRel]; [HAcq]; [HAcq]]) sched in
+                countb h_holding (snd s) = 2 /\ fst (hrun false 1 0%Z (map h_new [[HAcq; HRel; HRel]; [HAcq]; [HAcq]]) (firstn 3 sched)) = (-1)%Z.
+Proof. exact slot_release_not_idempotent_refuted. Qed.
+Print Assumptions C17_slot_release_not_idempotent_refuted.
 
 (* ---- per-client quotas on active connection codes / active mappings (storage level) ---- *)
 
